@@ -179,6 +179,17 @@ func c07Run(c *Ctx) {
 		}
 		c07Judge(c, &Case{Gen: "mutated-programs", Src: strings.Join(parts, " ") + "\n", Stdin: "in\n"})
 	}
+	// 5b. ways a valid program text can end (no final newline, trailing comments, blanks, CR)
+	endings := []string{"", "// c", "//", "// " + K["print"] + " 1;", "/* c */", "/**/", " ", "\t", "\r", "\r\n", "\n\n", "\n// c", "\n//", ";"}
+	bodies := []string{"", Print("1"), Print(`"s"`) + "\n" + Var("x", "1"), "{ " + Print("1") + " }", Fun("f", "", " "+Ret("1")+" "), Print("1") + " // tail", "// only", "/* only */"}
+	for _, b := range bodies {
+		for _, e := range endings {
+			if e == ";" && b == "" {
+				continue
+			}
+			emit("program-endings", b+e, true)
+		}
+	}
 	// 6. nesting / size stress
 	depth := c.N(3000, 10000)
 	stress := []struct{ name, src string }{
@@ -217,6 +228,6 @@ func init() {
 		Assumptions: []string{"unbounded recursion is outside the property (stated there); generated recursion is bounded"},
 		Run:         c07Run,
 		Judge:       c07Judge,
-		MustCount:   func(c *Ctx) []string { return []string{"gen:operator-matrix", "gen:builtin-matrix", "gen:access-forms", "gen:index-forms", "gen:untyped-random-programs", "gen:mutated-programs", "gen:stress-self-array-print", "exit:0", "exit:70", "cli_runs"} },
+		MustCount:   func(c *Ctx) []string { return []string{"gen:operator-matrix", "gen:builtin-matrix", "gen:access-forms", "gen:index-forms", "gen:untyped-random-programs", "gen:mutated-programs", "gen:program-endings", "gen:stress-self-array-print", "exit:0", "exit:70", "cli_runs"} },
 	})
 }
